@@ -198,8 +198,20 @@ class Layout:
         return g * self.gs + 1 + self.k * n + t
 
 
-REAL_CAND = [Fraction(x) for x in (2, 3, 5, 7, -2, -3, -5, -7, 11, -11, 13, -13, 6, -6, 10, -10, 17, -17)] + [Fraction(a, 2) for a in (3, -1, 5, -3, 7, -5, 9, -7, 11, -13, 15)]
-SQUARES = [Fraction(4), Fraction(9), Fraction(1, 4), Fraction(9, 4), Fraction(16), Fraction(25, 4)]
+def _cands():
+    out, seen = [], set()
+    for d in (1, 2, 3, 5, 4, 7):
+        for n in range(1, 10):
+            q = Fraction(n, d)
+            if q in seen or q == 1 or q.denominator != d:
+                continue
+            seen.add(q)
+            out.append(q if (n + d) % 2 else -q)
+    return out
+
+
+REAL_CAND = _cands()  # small numerators and denominators: products of several stay inside CQ's range
+SQUARES = [Fraction(4), Fraction(9), Fraction(1, 4), Fraction(9, 4), Fraction(4, 9), Fraction(25, 4)]
 
 
 class ExpPool:
@@ -222,7 +234,9 @@ class ExpPool:
                     if run.cm:
                         v = Cx(rng.choice([1, 2, 3, 4, 5, -1, -2, -3, -4, -5]), rng.choice([1, 2, 3, 4, -1, -2, -3, -4]))
                     else:
-                        v = Cx(rng.choice(SQUARES if square else REAL_CAND))
+                        v = Cx(rng.choice(SQUARES if square else REAL_CAND) * rng.choice([1, -1]))
+                        if square:
+                            v = Cx(abs(v.re))
                     key = (v.re, v.im)
                     # distinct, and not the negative or the conjugate of a value in use
                     if not ({key, (-v.re, -v.im), (v.re, -v.im), (-v.re, v.im)} & used):
